@@ -149,7 +149,7 @@ class QvmEval(EvaluationContext):
         routine = self.find_routine_func(frame.code_start)
         if (lvalue.base_var in self.global_consts or lvalue.base_var in routine.local_consts) and \
            (lvalue.array_indices or lvalue.dotted_vars):
-            raise ValueError(
+            raise EvalError(
                 'Indices and dotted vars not valid with consts')
         elif lvalue.base_var in routine.local_consts:
             return routine.local_consts[lvalue.base_var].eval()
